@@ -50,7 +50,7 @@ func loadedField(v ssa.Value) (structField, bool) {
 }
 
 func (sf structField) Is(structName, field string) bool {
-	return sf.Struct != nil && sf.Struct.Obj().Name() == structName && sf.Name == field
+	return sf.Struct != nil && canonTypeName(sf.Struct.Obj()) == structName && sf.Name == field
 }
 
 // storesToField lists all stores in fn (and optionally its closures) whose address is field
